@@ -29,7 +29,8 @@ EXTENSIONS = [".f90", ".F90", ".f", ".ftn", ".fpp", ".F", ".FOR", ".FTN", ".FPP"
 NONSRC = [".txt", ".o", ".C", ".H", ".CPP", ".py", "", ".c.bak", ".cc~", ".for", ".f77", ".hPP", ".json", ".md"]
 DIRNAMES = ["src", "include", "third-party", "build", "a b", "x[1]", "d*r", "q?", "!bang", "#hash", "sub", "deep", "lib.c", "Src",
             # names that mean something to shells, version control or path helpers but are ordinary directory names
-            ".git", ".svn", ".hg", "~", "~root", "$HOME", "CVS", "node_modules", "..."]
+            ".git", ".svn", ".hg", "~", "~root", "$HOME", "CVS", "node_modules", "...",
+            "src2", "src-old", "include2"]        # names that extend another directory's name
 BASENAMES = ["main", "util", "a b", "x[1]", "st*r", "q?x", "!neg", "#h", "foo", "Foo", "bar", ".hidden", "a.b", "-dash", "e2", "~", "$x", "%TEMP%"]
 
 
@@ -40,7 +41,7 @@ def bounds(tier):
 def required_cells(tier):
     cells = ["pat:anchored", "pat:dir-only", "pat:star", "pat:question", "pat:class", "pat:**/x", "pat:x/**", "pat:a/**/b",
              "pat:escape", "pat:trailing-space", "pat:comment", "pat:negation", "pat:reinclude-below-excluded-dir", "pat:none",
-             "pat:repeated-after-negation", "pat:leading-dot-slash",
+             "pat:repeated-after-negation", "pat:leading-dot-slash", "multi-directory-code-base", "multi-directory:name-prefix-related",
              "link:file-inside", "link:dir-inside", "link:outside", "link:dangling", "link:chain",
              "spell:absolute", "spell:relative-root", "spell:relative-other-cwd", "spell:dot", "spell:dotdot", "spell:via-link",
              "member:yes", "member:no-extension", "member:no-excluded", "member:no-outside", "member:no-directory",
@@ -350,6 +351,8 @@ def check_case(ctx, git, tree, patterns, feats, base, cls):
                 problems.append({"query": "enumerated path is not a member", "path": p})
     except Exception as e:
         problems.append({"query": "list(CodeBase)", "observed": f"{type(e).__name__}: {e}"})
+    if not problems and cls != "replay":
+        check_multi_directory(ctx, git, tree, patterns, root, realroot)
     nontriv = case if (n_member and n_excl) else None
     if problems and any("[[:" in p for p in patterns):
         # differential classification: the same query with the POSIX-class patterns removed from the list; if code and
@@ -364,6 +367,87 @@ def check_case(ctx, git, tree, patterns, feats, base, cls):
         acc.held(cells=cells, nontrivial=nontriv, cls=cls,
                  sample={"files": tree["files"], "links": tree["links"], "patterns": patterns,
                          "members": n_member, "excluded_queries": n_excl})
+
+
+def check_multi_directory(ctx, git, tree, patterns, root, realroot):
+    """A code base made of TWO directories of the tree: a file is a member iff it lies under one of them (by path
+    components) and the patterns, read relative to the directory that contains it, do not exclude it."""
+    from codebasin import CodeBase
+    acc = ctx.acc
+    tops = sorted({d.split("/")[0] for d in tree["dirs"] if d and not os.path.islink(os.path.join(root, d.split("/")[0]))})
+    if len(tops) < 2:
+        return
+    # prefer a pair of names of which one extends the other
+    pair = next(((a, b) for a in tops for b in tops if a != b and b.startswith(a)), (tops[0], tops[1]))
+    dirs = [os.path.join(realroot, x) for x in pair]
+    cells = {"multi-directory-code-base"}
+    if pair[1].startswith(pair[0]):
+        cells.add("multi-directory:name-prefix-related")
+    try:
+        cb = CodeBase(*dirs, exclude_patterns=list(patterns))
+    except Exception as e:
+        acc.violated({"input": {"tree": tree, "patterns": patterns, "directories": list(pair)},
+                      "witness": {"observed": f"constructor {type(e).__name__}: {e}"}}, mechanism=classify(patterns, f"{type(e).__name__}: {e}", None), cells=cells, cls="multi")
+        return
+    cand = []
+    for dp, dn, fn in os.walk(realroot):
+        for name in fn:
+            cand.append(os.path.join(dp, name))
+    want = {}
+    ign_by_dir = {}
+    for d in dirs:
+        rels = [os.path.relpath(os.path.realpath(c), d) for c in cand if (os.path.realpath(c) + "/").startswith(d + "/")]
+        pars = {"/".join(r.split("/")[:i]) for r in rels for i in range(1, len(r.split("/")))}
+        ign_by_dir[d] = git.ignored(d, patterns, sorted(set(rels) | pars))
+    problems = []
+    for c in cand:
+        real = os.path.realpath(c)
+        home = next((d for d in dirs if (real + "/").startswith(d + "/")), None)
+        exp = bool(home) and os.path.isfile(real) and os.path.splitext(real)[1] in EXTENSIONS and not ign_by_dir[home].get(os.path.relpath(real, home), False)
+        want[c] = exp
+        try:
+            obs = c in cb
+        except Exception as e:
+            obs = f"{type(e).__name__}: {e}"
+        acc.hook("H-contains")
+        if obs is not exp:
+            rel = os.path.relpath(real, home) if home else None
+            problems.append({"query": c, "expected": exp, "observed": obs, "reason": "excluded" if (home and not exp and os.path.splitext(real)[1] in EXTENSIONS) else "member" if exp else "outside",
+                             "parent_dir_ignored": bool(home) and any(ign_by_dir[home].get("/".join(rel.split("/")[:i])) for i in range(1, len(rel.split("/")))),
+                             "cwd": realroot, "multi": list(pair)})
+    try:
+        listed = {os.path.realpath(p) for p in cb}
+        members = {os.path.realpath(c) for c, e in want.items() if e}
+        if listed != members and not problems:
+            problems.append({"query": "list(CodeBase) over two directories", "expected": sorted(os.path.relpath(x, realroot) for x in members),
+                             "observed": sorted(os.path.relpath(x, realroot) for x in listed)})
+    except Exception as e:
+        problems.append({"query": "list(CodeBase) over two directories", "observed": f"{type(e).__name__}: {e}"})
+    case = {"tree": tree, "patterns": patterns, "directories": list(pair)}
+    if problems:
+        p0 = problems[0]
+        mech = None
+        if any("[[:" in p for p in patterns) or any(p.startswith("!") for p in patterns) or any(p.strip() == "!" for p in patterns):
+            # the single-directory classifiers apply unchanged (same pattern semantics)
+            if p0.get("query", "").startswith("list("):
+                mech = None
+            else:
+                if any("[[:" in p for p in patterns):
+                    # differential: the same query without the POSIX-class patterns
+                    try:
+                        p2 = [p for p in patterns if "[[:" not in p]
+                        real = os.path.realpath(p0["query"])
+                        home = next((d for d in dirs if (real + "/").startswith(d + "/")), None)
+                        ign2 = git.ignored(home, p2, [os.path.relpath(real, home)]) if home else {}
+                        exp2 = bool(home) and os.path.isfile(real) and os.path.splitext(real)[1] in EXTENSIONS and \
+                            not ign2.get(os.path.relpath(real, home), False)
+                        p0["agrees_without_posix_class_patterns"] = (p0["query"] in CodeBase(*dirs, exclude_patterns=p2)) is exp2
+                    except Exception:
+                        p0["agrees_without_posix_class_patterns"] = False
+                mech = classify(patterns, p0.get("observed"), p0)
+        acc.violated({"input": case, "witness": {"patterns": patterns, "directories": list(pair), "problems": problems[:5]}}, mechanism=mech, cells=cells, cls="multi")
+    else:
+        acc.held(cells=cells, cls="multi", nontrivial=case if any(want.values()) and not all(want.values()) else None)
 
 
 def agrees_without(git, root, realroot, patterns, problem):
